@@ -92,9 +92,10 @@ static void quadCxCase(std::complex<double> a, std::complex<double> b, std::comp
     predicates(std::string("quadCx.") + tag, A, R, false, NTraits<double>::getEps(), 64);
 }
 // degree >= 3 (rpoly / cpoly): contract only
-static void polyCase(vh::Rng& g, int n, bool cx, bool viaVec4) {
+static void polyCase(vh::Rng& g, int n, bool cx, bool viaVec4, int scaleExp = 0) {
     std::vector<std::complex<double> > a(n + 1);
-    for (auto& c : a) c = std::complex<double>(g.signedMag(0.1, 10), cx ? g.signedMag(0.1, 10) : 0.0);
+    // scaleExp != 0: all coefficients multiplied by 2^scaleExp (exact), exercising the solvers' overflow/underflow scaling
+    for (auto& c : a) c = std::complex<double>(std::ldexp(g.signedMag(0.1, 10), scaleExp), cx ? std::ldexp(g.signedMag(0.1, 10), scaleExp) : 0.0);
     std::vector<std::complex<double> > r(n);
     if (viaVec4 && n == 3) {
         Vec<3, std::complex<double> > roots;
@@ -112,7 +113,7 @@ static void polyCase(vh::Rng& g, int n, bool cx, bool viaVec4) {
     for (auto z : r) in.d(z.real()).d(z.imag());
     in.emit();
     std::printf("O polyCheck 1\n");
-    std::string tag = std::string(cx ? "cpoly" : "rpoly") + (viaVec4 && n == 3 ? ".vec4" : ".vector") ;
+    std::string tag = std::string(cx ? "cpoly" : "rpoly") + (viaVec4 && n == 3 ? ".vec4" : ".vector") + (scaleExp > 0 ? ".huge" : scaleExp < 0 ? ".tiny" : "");
     vh::D(tag + ".deg" + std::to_string(n));
     std::vector<CL> A, R; for (auto c : a) A.push_back(CL(c)); for (auto z : r) R.push_back(CL(z));
     predicates(tag, A, R, !cx, NTraits<double>::getEps(), 1e4);
@@ -194,7 +195,8 @@ int main(int argc, char** argv) {
         else if (stream == 7) quadCxCase({a, g.signedMag(0.1, 10)}, {b, g.signedMag(0.1, 10)}, {c, g.signedMag(0.1, 10)}, "generic");
         else if (stream == 8) { if (g.coin()) quadCxCase({a, g.signedMag(0.1, 10)}, {0, 0}, {c, g.signedMag(0.1, 10)}, "bzero");
                                 else quadCxCase({a, 0}, {b, 0}, {c, 0}, "realcoef"); }
-        else if (g.coin()) { int n = 3 + g.below(args.n > 1000 ? 18 : 10); polyCase(g, n, g.coin(), g.coin()); }
+        else if (g.coin()) { int n = 3 + g.below(args.n > 1000 ? 18 : 10);
+                             int se = g.below(4) ? 0 : (g.coin() ? 1 : -1) * (500 + g.below(20)); polyCase(g, n, g.coin(), g.coin(), se); }
         else { int kind = g.below(5); int n = 2 + g.below(kind <= 1 ? 5 : 9);
                if (g.below(4) == 0) knownRootsCase<float>(g, std::min(n, 6), kind); else knownRootsCase<double>(g, n, kind); }
     }
